@@ -116,10 +116,47 @@ theorem C18_to07_preserves (q : VQuirks) (s : Sch) (d : Py) : v07 (to07 q s) d =
 theorem C18_buildD (q : VQuirks) (ap : Bool) (t : Ty) (d : Py) :
     v07 (to07 q (buildD ap t)) d = validates (buildD ap t) d := C18_to07_preserves q _ d
 
-/-- the vocabulary clause fails on the pinned tree: `prefixItems` survives in the 2019-09 / draft-07 output
-    (row 18); with the repair it does not -/
+/-- **C18 (vocabulary).** Since the repair of row 18 (`prefixItems` is moved, not copied) the 2019-09 / draft-07
+    output contains no `prefixItems` at any nesting level — for every schema over the emitted keywords. -/
+theorem to07_clean :
+    (∀ s : Sch, (to07 { keepsPrefixItems := false } s).clean = true) ∧
+    (∀ l : List Sch, cleanL (to07L { keepsPrefixItems := false } l) = true) ∧
+    (∀ l : List (Pat × Sch), cleanPat (to07Pat { keepsPrefixItems := false } l) = true) ∧
+    (∀ l : List (String × Sch), cleanP (to07P { keepsPrefixItems := false } l) = true) ∧
+    (∀ o : Option (Bool ⊕ Sch), cleanI (to07I { keepsPrefixItems := false } o) = true) ∧
+    (∀ o : Option (List Sch), cleanO (to07Pre { keepsPrefixItems := false } o) = true) := by
+  apply to07.mutual_induct
+  · intro ty const enum cons items pre props req addl pats anyOf dflt hpre hitems hprops haddl hpats hany
+    rw [to07, S07.clean]
+    have hsel1 : cleanI (selItemsOne (to07Pre { keepsPrefixItems := false } pre) (to07I { keepsPrefixItems := false } items)) = true := by
+      unfold selItemsOne; split
+      · rfl
+      · exact hitems
+    have hsel2 : cleanI (selAdditional (to07Pre { keepsPrefixItems := false } pre) (to07I { keepsPrefixItems := false } items)) = true := by
+      unfold selAdditional; split
+      · exact hitems
+      · rfl
+    have hk : (selKept { keepsPrefixItems := false } (to07Pre { keepsPrefixItems := false } pre)).isNone = true := by
+      simp [selKept]
+    rw [hk, hsel1, hsel2, hpre, hprops, haddl, hpats, hany]; rfl
+  · rw [to07I, cleanI]
+  · intro b; rw [to07I, cleanI]
+  · intro s ih; rw [to07I, cleanI]; exact ih
+  · rw [to07Pre, cleanO]
+  · intro l ih; rw [to07Pre, cleanO]; exact ih
+  · rw [to07P, cleanP]
+  · intro k s ps ihs ihps; rw [to07P, cleanP, ihs, ihps]; rfl
+  · rw [to07Pat, cleanPat]
+  · intro p s ps ihs ihps; rw [to07Pat, cleanPat, ihs, ihps]; rfl
+  · rw [to07L, cleanL]
+  · intro s ss ihs ihss; rw [to07L, cleanL, ihs, ihss]; rfl
+
+theorem C18_vocabulary (s : Sch) : (to07 { keepsPrefixItems := false } s).clean = true := to07_clean.1 s
+
+/-- on the pinned tree the clause failed: `prefixItems` survived in the 2019-09 / draft-07 output (row 18) -/
 theorem C18_vocabulary_counterexample :
     (to07 { keepsPrefixItems := true } (buildD false (.tuple [.int]))).foreignKeywords = true
+    ∧ (to07 { keepsPrefixItems := true } (buildD false (.list (.tuple [.int])))).clean = false
     ∧ (to07 { keepsPrefixItems := false } (buildD false (.tuple [.int]))).foreignKeywords = false := by
   decide +kernel
 
